@@ -142,7 +142,7 @@ Print Assumptions C14_http_exception_is_response.
 Theorem C14_unmatched_url_raises_notfound : forall P W ri st,
   ri_root_raise ri = None ->
   not_found (call_view (w_reg W) view_classifier (ri_req ri)) ->
-  main_handler P W ri st = (Raise id_h_nf, st) \/ main_handler P W ri st = (Raise id_h_pme, st).
+  main_handler P W ri false st = (Raise id_h_nf, st) \/ main_handler P W ri false st = (Raise id_h_pme, st).
 Proof. exact unmatched_url_raises_notfound. Qed.
 Print Assumptions C14_unmatched_url_raises_notfound.
 
@@ -150,7 +150,7 @@ Theorem C14_refused_permission_raises_forbidden : forall P W ri st t,
   ri_root_raise ri = None ->
   call_view (w_reg W) view_classifier (ri_req ri) = Ran t ->
   b_perm (body_of (w_bodies W) t) = true -> ri_deny ri = true ->
-  main_handler P W ri st = (Raise id_h_forb, st).
+  main_handler P W ri false st = (Raise id_h_forb, st).
 Proof. exact refused_permission_raises_forbidden. Qed.
 Print Assumptions C14_refused_permission_raises_forbidden.
 
@@ -320,20 +320,20 @@ Theorem C14_gen_reraise_is_model : forall W fresh value, gen_reraise W fresh val
 Proof. exact gen_reraise_is_model. Qed.
 Print Assumptions C14_gen_reraise_is_model.
 
-Theorem C14_gen_iev_is_model : forall b W ri site rr sec e st,
-  gen_iev (spec_params_b b) W ri site rr sec e st = iev_pm (spec_params_b b) W ri site rr sec e st.
+Theorem C14_gen_iev_is_model : forall b W ri oth site rr sec e st,
+  gen_iev (spec_params_b b) W ri oth site rr sec e st = iev_pm (spec_params_b b) W ri site rr sec e st.
 Proof. exact gen_iev_is_model. Qed.
 Print Assumptions C14_gen_iev_is_model.
 
 Theorem C14_gen_error_handler_is_model : forall b W ri site e st,
   gen_error_handler (spec_params_b b) W ri site e st
-  = error_handler_m (spec_params_b b) W (iev_pm (spec_params_b b) W ri) site e st.
+  = error_handler_m (spec_params_b b) W (fun _ => iev_pm (spec_params_b b) W ri) site e st.
 Proof. exact gen_error_handler_is_model. Qed.
 Print Assumptions C14_gen_error_handler_is_model.
 
 Theorem C14_gen_excview_tween_is_model : forall b W ri ho st,
   gen_excview_tween (spec_params_b b) W ri site_tween ho st
-  = excview_tween_g (spec_params_b b) W (iev_pm (spec_params_b b) W ri) ho st.
+  = excview_tween_g (spec_params_b b) W (fun _ => iev_pm (spec_params_b b) W ri) ho st.
 Proof. exact gen_excview_tween_is_model. Qed.
 Print Assumptions C14_gen_excview_tween_is_model.
 
